@@ -13,7 +13,6 @@ import json
 import os
 import re
 import shutil
-import sys
 
 from engine import tlc, tla
 
